@@ -214,11 +214,18 @@ pub fn run(ctx: &Ctx) -> CheckOutput {
             }
         }
     }
-    // thorough: three-level chains C(B(A(leaf))) over a pool of 12 views with different readiness,
-    // decomposed as stand-alone A feeding the two-level chain C(B(Echo))
-    if !quick {
+    // three-level chains C(B(A(leaf))), decomposed as stand-alone A feeding the two-level chain
+    // C(B(Echo)): a middle view that reports a value before it was delivered anything is consumed
+    // by C as if it were data, which only this association of the chain exposes
+    {
         use Kind::*;
-        let pool: Vec<Spec> = [Sma, Ema, Roc, Cumulative, Min, Vst, Rsi, MyRsi, SuperSmoother, GTE, Tanh, HLNormalizer].iter().map(|k| mk(*k, 2, Spec::echo())).collect();
+        let kinds: Vec<(Kind, usize)> = if quick {
+            vec![(Sma, 2), (Ema, 2), (HLNormalizer, 2), (Cti, 2), (SuperSmoother, 2), (Vst, 2), (Drawdown, 0), (WelfordOnline, 1)]
+        } else {
+            vec![(Sma, 2), (Ema, 2), (Roc, 2), (Cumulative, 2), (Min, 2), (Vst, 2), (Rsi, 2), (MyRsi, 2), (SuperSmoother, 2), (GTE, 0), (Tanh, 0), (HLNormalizer, 2), (Cti, 3), (Drawdown, 0), (WelfordOnline, 1), (Vsct, 1), (LnReturn, 0), (Net, 3)]
+        };
+        let pool: Vec<Spec> = kinds.iter().map(|(k, n)| mk(*k, *n, Spec::echo())).collect();
+        let d3 = if quick { 5 } else { 7 };
         for c in pool.clone() {
             let pool = pool.clone();
             jobs.push(Box::new(move || {
@@ -227,10 +234,10 @@ pub fn run(ctx: &Ctx) -> CheckOutput {
                 for b in &pool {
                     let outer = c.with_leaf(b);
                     for a in &pool {
-                        chain_of::<f64>(&outer, a, &Z3, 7, &mut st, &sink);
+                        chain_of::<f64>(&outer, a, &Z3, d3, &mut st, &sink);
                     }
                 }
-                JobOut { stats: st, viols: sink.take(), samples: vec![json!({"explorer":"TREE","three_level_chains":"C(B(A(leaf)))","C":c.name(),"pool":12,"depth":7})] }
+                JobOut { stats: st, viols: sink.take(), samples: vec![json!({"explorer":"TREE","three_level_chains":"C(B(A(leaf)))","C":c.name(),"pool":pool.len(),"depth":d3})] }
             }));
         }
     }
